@@ -358,7 +358,7 @@ impl CuckaroodContext {
 //@+        forall|a: int| 0 <= a < n ==> #[trigger] nonces@[a] <= self.params.edge_mask,
 //@+        forall|a: int| 1 <= a < n ==> nonces@[a - 1] < #[trigger] nonces@[a],
 //@   after `let dir = (nonces[n] & 1) as usize;`:
-//@+    proof { let x = nonces@[n as int]; assert((x & 1) <= 1) by(bit_vector); }
+//@+    proof { let x = nonces@[n as int]; assert((x & 1) <= 1) by(bit_vector); assert(cnt_dir(nonces@, n + 1, dir as int) == cnt_dir(nonces@, n as int, dir as int) + 1); }
 //@   before `uvs[idx] = u;`:
 //@+    let ghost (hu0, hv0, pv0, nd0, nd1, uvs0) = (headu@, headv@, prev@, ndir@[0] as int, ndir@[1] as int, uvs@);
 //@+    proof { lemma_bits(u, dir as u64, mask); lemma_bits(v, dir as u64, mask);
@@ -420,8 +420,6 @@ impl CuckaroodContext {
 //@+    decreases (if k == nn { 0int } else { k + 1 }),
 //@   before `return Err(Error::Branch);`:
 //@+    proof { lemma_branch(uvs@, mask, nn, h, i as int, k as int, j as int); }
-//@   before `return Err(Error::NotBalanced);`:
-//@+    proof { assert(cnt_dir(nonces@, n + 1, dir as int) == cnt_dir(nonces@, n as int, dir as int) + 1); assert(cnt_dir(nonces@, n + 1, dir as int) > size / 2); }
 //@   before `if j == i {`:
 //@+    proof { lemma_scan_done(uvs@, mask, nn, h, i as int, j as int); if j == i { assert(no_partner(uvs@, i as int)); } }
 //@   before `i = j ^ 1;`:
